@@ -17,14 +17,14 @@ func init() {
 		stubs["(*sync/atomic."+ty+").Load"] = func(t *Thread, fn *ssa.Function, args []Value, pos token.Pos) Value {
 			c := atomicValueCell(t, args[0], pos)
 			st := t.e.syncOf(c)
-			t.visible(&SyncOp{kind: "atomic.load", obj: c, read: true, pos: t.posOf(pos), enabled: func() bool { return true }})
+			t.visible(&SyncOp{kind: "atomic.load", obj: c, read: true, tpos: pos, enabled: func() bool { return true }})
 			t.acquire(&st.hb)
 			return atomicGet(t, c, ty)
 		}
 		stubs["(*sync/atomic."+ty+").Store"] = func(t *Thread, fn *ssa.Function, args []Value, pos token.Pos) Value {
 			c := atomicValueCell(t, args[0], pos)
 			st := t.e.syncOf(c)
-			t.visible(&SyncOp{kind: "atomic.store", obj: c, pos: t.posOf(pos), enabled: func() bool { return true }})
+			t.visible(&SyncOp{kind: "atomic.store", obj: c, tpos: pos, enabled: func() bool { return true }})
 			atomicSet(t, c, ty, args[1].(*Term))
 			t.release(&st.hb)
 			return nil
@@ -32,7 +32,7 @@ func init() {
 		stubs["(*sync/atomic."+ty+").Swap"] = func(t *Thread, fn *ssa.Function, args []Value, pos token.Pos) Value {
 			c := atomicValueCell(t, args[0], pos)
 			st := t.e.syncOf(c)
-			t.visible(&SyncOp{kind: "atomic.swap", obj: c, pos: t.posOf(pos), enabled: func() bool { return true }})
+			t.visible(&SyncOp{kind: "atomic.swap", obj: c, tpos: pos, enabled: func() bool { return true }})
 			t.acquire(&st.hb)
 			old := atomicGet(t, c, ty)
 			atomicSet(t, c, ty, args[1].(*Term))
@@ -42,7 +42,7 @@ func init() {
 		stubs["(*sync/atomic."+ty+").CompareAndSwap"] = func(t *Thread, fn *ssa.Function, args []Value, pos token.Pos) Value {
 			c := atomicValueCell(t, args[0], pos)
 			st := t.e.syncOf(c)
-			t.visible(&SyncOp{kind: "atomic.cas", obj: c, pos: t.posOf(pos), enabled: func() bool { return true }})
+			t.visible(&SyncOp{kind: "atomic.cas", obj: c, tpos: pos, enabled: func() bool { return true }})
 			t.acquire(&st.hb)
 			cur := atomicGet(t, c, ty).(*Term)
 			eq := t.e.ts.Eq(cur, args[1].(*Term))
@@ -57,7 +57,7 @@ func init() {
 			stubs["(*sync/atomic."+ty+").Add"] = func(t *Thread, fn *ssa.Function, args []Value, pos token.Pos) Value {
 				c := atomicValueCell(t, args[0], pos)
 				st := t.e.syncOf(c)
-				t.visible(&SyncOp{kind: "atomic.add", obj: c, pos: t.posOf(pos), enabled: func() bool { return true }})
+				t.visible(&SyncOp{kind: "atomic.add", obj: c, tpos: pos, enabled: func() bool { return true }})
 				t.acquire(&st.hb)
 				nv := t.e.ts.BVBin("bvadd", atomicGet(t, c, ty).(*Term), args[1].(*Term))
 				atomicSet(t, c, ty, nv)
@@ -198,7 +198,7 @@ func atomicSet(t *Thread, c *Cell, ty string, nv *Term) {
 func stubAtomicCAS(t *Thread, fn *ssa.Function, args []Value, pos token.Pos) Value {
 	c := t.derefPtr(args[0], pos)
 	st := t.e.syncOf(c)
-	t.visible(&SyncOp{kind: "atomic.cas", obj: c, pos: t.posOf(pos), enabled: func() bool { return true }})
+	t.visible(&SyncOp{kind: "atomic.cas", obj: c, tpos: pos, enabled: func() bool { return true }})
 	t.acquire(&st.hb)
 	ok := t.truth(t.e.ts.Eq(c.v.(*Term), args[1].(*Term)), "atomic.cas")
 	if ok {
@@ -210,7 +210,7 @@ func stubAtomicCAS(t *Thread, fn *ssa.Function, args []Value, pos token.Pos) Val
 
 func stubTryLock(t *Thread, fn *ssa.Function, args []Value, pos token.Pos) Value {
 	c, st := t.syncRecv(args, pos)
-	t.visible(&SyncOp{kind: "trylock", obj: c, pos: t.posOf(pos), enabled: func() bool { return true }})
+	t.visible(&SyncOp{kind: "trylock", obj: c, tpos: pos, enabled: func() bool { return true }})
 	if st.writer != 0 || st.nread != 0 {
 		return t.e.ts.Bool(false)
 	}
@@ -230,7 +230,7 @@ func stubOnceDo(t *Thread, fn *ssa.Function, args []Value, pos token.Pos) Value 
 	c := t.derefPtr(args[0], pos)
 	st := t.e.syncOf(c)
 	// Do holds the Once's mutex while f runs: model as lock; run; unlock
-	t.visible(&SyncOp{kind: "lock", obj: c, pos: t.posOf(pos), enabled: func() bool { return st.writer == 0 }})
+	t.visible(&SyncOp{kind: "lock", obj: c, tpos: pos, enabled: func() bool { return st.writer == 0 }})
 	st.writer = t.id + 1
 	t.acquire(&st.hb)
 	if st.counter == 0 {
